@@ -17,6 +17,30 @@ import (
 func (v *Validator) typeOfExpr(env *requestEnv, expr ast.IsNode, caps capabilitySet) (cedarType, capabilitySet, error) {
 	switch n := expr.(type) {
 	case ast.NodeValue:
+		// Values other than bool / long / string / entity occur in policies built
+		// programmatically or decoded from JSON: type them like the literal they denote.
+		switch val := n.Value.(type) {
+		case types.Set:
+			elems := make([]ast.IsNode, 0, val.Len())
+			for e := range val.All() {
+				elems = append(elems, ast.NodeValue{Value: e})
+			}
+			return v.typeOfSet(env, ast.NodeTypeSet{Elements: elems}, caps)
+		case types.Record:
+			elems := make([]ast.RecordElementNode, 0, val.Len())
+			for k, e := range val.All() {
+				elems = append(elems, ast.RecordElementNode{Key: k, Value: ast.NodeValue{Value: e}})
+			}
+			return v.typeOfRecord(env, ast.NodeTypeRecord{Elements: elems}, caps)
+		case types.Decimal:
+			return typeExtension{name: "decimal"}, caps, nil
+		case types.IPAddr:
+			return typeExtension{name: "ipaddr"}, caps, nil
+		case types.Datetime:
+			return typeExtension{name: "datetime"}, caps, nil
+		case types.Duration:
+			return typeExtension{name: "duration"}, caps, nil
+		}
 		ty, err := v.typeOfValue(n.Value)
 		return ty, caps, err
 
